@@ -8,6 +8,7 @@ marker.  `roundtrip()` re-reads the generated file, deletes every marked line,
 undoes the declared rewrites and checks token identity with the repository text.
 """
 import hashlib
+import json
 import os
 import re
 
@@ -22,6 +23,36 @@ RW1_TABLE = {
     'ConnectionError::StreamWriteError': ('std::io::Error', 'ConnectionError'),
     'ServerError::IOError': ('std::io::Error', 'ServerError'),
 }
+
+
+
+def binder_names(src_masked):
+    """Ordered list of the identifiers a function binds: parameters, then `let`, `for`, and the
+    single-identifier payloads of Some/Ok/Err patterns.  Purely syntactic."""
+    p = src_masked.find('(')
+    q = match_close(src_masked, p)
+    params = []
+    depth = 0
+    cur = ''
+    for ch in src_masked[p + 1:q] + ',':
+        if ch in '([{<':
+            depth += 1
+        elif ch in ')]}>':
+            depth -= 1
+        if ch == ',' and depth == 0:
+            m = re.match(r'\s*(?:mut\s+)?([A-Za-z_]\w*)\s*:', cur)
+            if m and m.group(1) != 'self':
+                params.append(m.group(1))
+            cur = ''
+        else:
+            cur += ch
+    body = src_masked[q:]
+    locs = []
+    for m in re.finditer(r'\blet\s+(?:mut\s+)?([a-z_]\w*)\b|\bfor\s+([a-z_]\w*)\s+in\b|\b[A-Z]\w*\(\s*(?:ref\s+|mut\s+)?([a-z_]\w*)\s*\)+\s*(?:=>|=(?!=))', body):
+        name = m.group(1) or m.group(2) or m.group(3)
+        if name and name != '_':
+            locs.append(name)
+    return params, locs
 
 
 class Section:
@@ -88,6 +119,12 @@ class UnitGen:
         self.files = {}
         self.disabled = set(disabled or [])
         self.canary = None  # fn id -> append assert(false)
+
+    def names_baseline(self):
+        if not hasattr(self, '_names'):
+            p = os.path.join(self.units_dir, 'names.json')
+            self._names = json.load(open(p)) if os.path.exists(p) else {}
+        return self._names
 
     def rf(self, rel):
         if rel not in self.files:
@@ -308,6 +345,41 @@ class UnitGen:
         info['contract_sha'] = hashlib.sha256('\n'.join(
             l.strip() for sec in fd.sections if sec.kind in ('requires', 'ensures') for l in sec.lines if l.strip()).encode()).hexdigest()[:16]
         g.fns[fid] = info
+        # names the contract text was written against (committed baseline) vs. names in the current text:
+        # a pure renaming of parameters/locals is followed, so that it does not strand the proof script
+        cur_params, cur_locs = binder_names(mask(src))
+        info['binders'] = dict(params=cur_params, locals=cur_locs)
+        base = self.names_baseline().get(fd.path)
+        rename = {}
+        if base:
+            for old_l, new_l in ((base.get('params', []), cur_params), (base.get('locals', []), cur_locs)):
+                if len(old_l) == len(new_l):
+                    for a, b in zip(old_l, new_l):
+                        if a != b:
+                            if rename.get(a, b) != b:
+                                rename = None
+                                break
+                            rename[a] = b
+                if rename is None:
+                    break
+            if rename:
+                # refuse ambiguous maps (two old names to one new name, or a new name that is also an old one kept elsewhere)
+                olds = set(base.get('params', []) + base.get('locals', []))
+                if len(set(rename.values())) != len(rename) or any(b in olds and b not in rename for b in rename.values()):
+                    rename = {}
+        rename = rename or {}
+        info['renamed'] = rename
+        if rename:
+            # not a field access (.name) and not a struct-field label (name: ...)
+            rx = re.compile(r'(?<![.\w])(%s)\b(?!\s*:(?!:))' % '|'.join(re.escape(k) for k in rename))
+            for sec in fd.sections:
+                if sec.kind == 'rewrite':
+                    sec.args = [sec.args[0], rx.sub(lambda m: rename[m.group(1)], sec.args[1]), rx.sub(lambda m: rename[m.group(1)], sec.args[2])]
+                    continue
+                sec.lines = [rx.sub(lambda m: rename[m.group(1)], ln) for ln in sec.lines]
+                if sec.kind in ('after', 'before'):
+                    sec.args = [sec.args[0], rx.sub(lambda m: rename[m.group(1)], sec.args[1])]
+            g.rewrites.append(dict(fn=fid, id='NAMES', frm=', '.join(sorted(rename)), to=', '.join(rename[k] for k in sorted(rename))))
         text = src
         rws = []
         if fd.mode == 'verify':
